@@ -50,6 +50,12 @@ def check(ctx: Ctx) -> None:
     # committed current snapshot at some instant between the read's start and end" (it may never have been committed at all)
     from .c10 import r7 as c10_r7
     ctx.shared(c10_r7, "C10.R7", "C02.R9", "reads resolve the committed version from storage every time")
+    # on S3: only "no such object" means absent - a 403 / throttle read as "the pointer's target is missing" sends the reader to
+    # hint-less recovery, which picks the highest version on disk (possibly one that was never committed)
+    from .c20 import r2 as c20_r2, r3 as c20_r3
+    ctx.shared(c20_r2, "C20.R2", "C02.R10", "only 404 / NoSuchKey mean absent")
+    # a retried conditional pointer PUT reports a conflict for a write that landed: the version readers already saw is deleted
+    ctx.shared(c20_r3, "C20.R3", "C02.R11", "the conditional pointer PUT is never retried")
 
 
 def r6(ctx: Ctx) -> None:
